@@ -54,6 +54,11 @@ let handle (line : string) : string =
   | "NC" :: _ ->
     let refused = (match get a "kind" with
         | "listener" -> (match listener_mode true CtxNone with MRefused -> true | _ -> false)
+        | "listener-nomode" ->
+          (* enabled, but defaultMode does not select the server role: no context is built *)
+          (match listener_mode true (server_ctx { t_enabled = false; t_verify_peer = false; t_has_ca = false; t_min_version = None }) with MRefused -> true | _ -> false)
+        | "client-nomode" ->
+          (match client_mode true (client_ctx { t_enabled = false; t_verify_peer = true; t_has_ca = false; t_min_version = None }) false with MRefused -> true | _ -> false)
         | _ -> (match client_mode true CtxNone false with MRefused -> true | _ -> false)) in
     "refused=" ^ (if refused then "1" else "0") ^ " clear=0"
   | "CF" :: _ ->
